@@ -3,7 +3,7 @@
    Only statements (closed by `exact`), Print Assumptions, and examples.
    Model: Model/Tok.v (Tokenizer.parse, character-exact), Model/TokPos.v (positions, hand-overs, reach). *)
 From Coq Require Import ZArith NArith List Bool String.
-From JMCV Require Import Model.Tok Model.TokPos Proofs.Tok Proofs.TokPos.
+From JMCV Require Import Model.Tok Model.TokPos Proofs.Tok Proofs.TokPos Proofs.TokProps.
 Import ListNotations.
 Open Scope Z_scope.
 
@@ -23,9 +23,7 @@ Print Assumptions C14_position_determines_offset.
 Theorem C14_tok_pos : forall uni printable alms es asemi sub line col progs stmt t,
   parse uni printable alms es asemi sub line col = Ok progs -> In stmt progs -> In t stmt ->
   exists d r, sub = d ++ r /\ (t_line t, t_col t) = pos_after (line, col) d /\ token_src t r.
-Proof.
-  intros. destruct (parse_tokens_faithful _ _ _ _ _ _ _ _ _ _ _ H H0 H1) as [F _]. exact F.
-Qed.
+Proof. exact p_C14_tok_pos. Qed.
 Print Assumptions C14_tok_pos.
 
 (* ... and in the file: if the tokenizer is started on a piece `sub` of `file` with the position of the
@@ -34,14 +32,7 @@ Theorem C14_tok_pos_in_file : forall uni printable alms es asemi file pre sub po
   file = pre ++ sub ++ post ->
   parse uni printable alms es asemi sub (fst (pos_of file (List.length pre))) (snd (pos_of file (List.length pre))) = Ok progs ->
   In stmt progs -> In t stmt -> faithful file t.
-Proof.
-  intros uni printable alms es asemi file pre sub post progs stmt t Hf Hp H1 H2.
-  assert (E : pos_of file (List.length pre) = pos_after (1, 1) pre).
-  { unfold pos_of. rewrite Hf, firstn_app, Nat.sub_diag, firstn_all. simpl. rewrite app_nil_r. reflexivity. }
-  rewrite E in Hp. destruct (pos_after (1, 1) pre) as [l c] eqn:Ep. simpl in Hp.
-  destruct (parse_tokens_faithful _ _ _ _ _ _ _ _ _ _ _ Hp H1 H2) as [F _].
-  eapply faithful_lift; eauto. rewrite Ep. exact F.
-Qed.
+Proof. exact p_C14_tok_pos_in_file. Qed.
 Print Assumptions C14_tok_pos_in_file.
 
 (* Nesting.  `reach h file t`: t is a token of the top-level tokenisation of `file`, or of the
@@ -52,26 +43,20 @@ Print Assumptions C14_tok_pos_in_file.
 Theorem C14_nested : forall uni printable h,
   (d_body h = 1 /\ d_arrow h = 1 /\ d_args h = 1) <->
   (forall file t, reach uni printable h file t -> faithful file t).
-Proof.
-  intros uni printable h. split.
-  - intros [A [B C]] file t R. destruct (reach_faithful uni printable h file t A B C R) as [F _]. exact F.
-  - apply handovers_must_add_one.
-Qed.
+Proof. exact p_C14_nested. Qed.
 Print Assumptions C14_nested.
 
 (* The tree with fixes/C14-body-handover-col.patch: all three hand-overs add 1. *)
 Theorem C14_repaired_tree : forall uni printable file t,
   reach uni printable repaired file t -> faithful file t.
-Proof. intros uni printable. apply (proj1 (C14_nested uni printable repaired)). repeat split. Qed.
+Proof. exact p_C14_repaired_tree. Qed.
 Print Assumptions C14_repaired_tree.
 
 (* The tree before the patch (bodies started at the brace's own column): `function f() { bogus x; }`
    cites `bogus` at line 1 col 15; its text is at col 16. *)
 Theorem C14_pinned_handover_refuted : forall uni printable,
   exists file t, reach uni printable pinned file t /\ ~ faithful file t.
-Proof.
-  intros uni printable. exists pfile, ptok. split; [apply pinned_reach|apply pinned_unfaithful].
-Qed.
+Proof. exact p_C14_pinned_handover_refuted. Qed.
 Print Assumptions C14_pinned_handover_refuted.
 
 (* Diagnostics of the tokenizer itself.  Whatever `Tokenizer.parse` reports is cited
@@ -86,10 +71,7 @@ Theorem C14_diag_pos : forall uni printable alms es asemi sub line col d l c,
   (d = DStringLineBreakEOF /\ (l, c + 1) = pos_after (line, col) sub) \/
   (d = DBracketNeverClosed /\ exists d0 p r, sub = d0 ++ p :: r /\ is_lparen p = true /\ (l, c) = pos_after (line, col) d0) \/
   (d = DExpectedSemicolon /\ exists t, faithful_from (line, col) sub t /\ (l, c) = cite_end printable t).
-Proof.
-  intros. apply parse_diag_pos in H. destruct H as [H|[H|[H|[E [t [[F _] Hc]]]]]]; auto.
-  right. right. right. split; auto. exists t. auto.
-Qed.
+Proof. exact p_C14_diag_pos. Qed.
 Print Assumptions C14_diag_pos.
 
 (* error_msg(col_length=True) on a token that is not a string literal and is cited at its true position:
@@ -103,7 +85,7 @@ Proof. exact cite_end_is_end. Qed.
 Print Assumptions C14_error_end.
 
 (* Non-vacuity: a three-level program; the planted keyword is reachable with the repaired hand-overs and
-   is cited at (2, 18), which is where its text is. *)
+   is cited at (2, 27), which is where its text is. *)
 Example C14_nonvacuous :
   let file := of_string "class a {
   function f() { if (x) { zz 1; } }
